@@ -37,6 +37,10 @@ func zzC10Mgr(pre int) {
 	zzMust(err)
 	bs := &BlockStamp{Height: 1, Timestamp: time.Unix(1600000600, 0)}
 	bs.Hash[0] = 0xb5
+	// a tip above the reorg-safe window: PutSyncedTo also prunes the hash
+	// recorded MaxReorgDepth blocks below it
+	bsHigh := &BlockStamp{Height: MaxReorgDepth + 7, Timestamp: time.Unix(1606000600, 0)}
+	bsHigh.Hash[0] = 0xb6
 	ops := []opT{
 		{"NextExternalAddresses", func(ns walletdb.ReadWriteBucket) error { _, err := sm.NextExternalAddresses(ns, 0, 2); return err }},
 		{"NextInternalAddresses", func(ns walletdb.ReadWriteBucket) error { _, err := sm.NextInternalAddresses(ns, 0, 1); return err }},
@@ -81,6 +85,7 @@ func zzC10Mgr(pre int) {
 			return err
 		}},
 		{"ConvertToWatchingOnly", func(ns walletdb.ReadWriteBucket) error { return w.mgr.ConvertToWatchingOnly(ns) }},
+		{"SetSyncedTo(above the reorg window)", func(ns walletdb.ReadWriteBucket) error { return w.mgr.SetSyncedTo(ns, bsHigh) }},
 	}
 	// the addresses the next requests would hand out, learnt from a throwaway
 	// manager inside a transaction that is rolled back: they are not issued
@@ -162,6 +167,9 @@ func zzC10Mgr(pre int) {
 	verifrt.Assert(rerr == nil, "c10-mgr-retry-succeeds")
 	if op.name == "SetSyncedTo" {
 		w.height = 1
+	}
+	if op.name == "SetSyncedTo(above the reorg window)" {
+		w.height = bsHigh.Height
 	}
 	w.compare()
 	if !w.mgr.WatchOnly() {
